@@ -71,6 +71,7 @@ class LineReader(object):
 
     def _find_lines(self, indent, command, **kwargs):
         while True:
+            pos = self._dbfile.tell()
             line = self._dbfile.readline()
             if not line:
                 return
@@ -91,6 +92,9 @@ class LineReader(object):
                 if matched:
                     yield largs
             elif lindent < indent:
+                # Leave the line that ends this section for the caller that is
+                # iterating over the enclosing section
+                self._dbfile.seek(pos)
                 return
 
     def _parse_line(self, line):
@@ -359,7 +363,7 @@ class PlainTermsReader(base.TermsReader, LineReader):
             raise TermNotFound("No field %r" % fieldname)
 
     def _iter_fields(self):
-        self._find_root()
+        self._find_root("TERMS")
         c = self._find_line(1, "TERMFIELD")
         while c is not None:
             yield c["fn"]
